@@ -76,3 +76,15 @@ Definition check_doc (c : doc_case) : Z :=
   | Raise x, Raise y => if x =? y then 0 else 4
   | _, _ => 5
   end.
+
+(* ---- text level: the writer model's text is the real writer's text, and the response meets the premises of skr_file_roundtrip ---- *)
+From KV Require Import Model.XmlTree Model.Shape Model.SkrText Proofs.SkrOk.
+Definition text_case : Type := (Response * text)%type.
+Definition nonneg_key (k : Key) : bool := (0 <=? k_tag k) && (0 <=? k_ttl k) && (0 <=? k_flags k) && (0 <=? k_proto k) && (0 <=? k_alg k).
+Definition nonneg_sig (s : Sig) : bool := (0 <=? s_ttl s) && (0 <=? s_alg s) && (0 <=? s_labels s) && (0 <=? s_ottl s) && (0 <=? s_tag s).
+Definition check_text (c : text_case) : Z :=
+  let '(r, doc) := c in
+  if negb (texts_ok r) then 2
+  else if negb (rsa_only r) then 3
+  else if negb ((0 <=? rs_serial r) && forallb (fun b => forallb nonneg_key (b_keys b) && forallb nonneg_sig (b_sigs b)) (rs_bundles r)) then 4
+  else if text_eqb (skr_text r) doc then 0 else 1.
